@@ -5,6 +5,7 @@ c_Derived == {"x", "y", "z"}
 c_Deps == [n \in c_Derived |-> CASE n = "x" -> {"a"} [] n = "y" -> {"a", "b"} [] n = "z" -> {"x"}]
 c_Coords == {"none", "identity", "affine"}
 view == svars
+D3 == TLCGet("level") <= 4
 D4 == TLCGet("level") <= 5
 D5 == TLCGet("level") <= 6
 D6 == TLCGet("level") <= 7
